@@ -124,9 +124,60 @@ pub fn observe_isolated(si: &gen::SchemaInfo, text: &str, tmpdir: &str) -> J {
     }
 }
 
+/// positions of all nodes of the wire AST (every `[line, col]` in a position slot)
+pub fn positions(doc: &q::Document) -> Vec<String> {
+    fn dirs(ds: &[q::Directive], out: &mut Vec<String>) { for d in ds { out.push(enc::r_pos(&d.position)); } }
+    fn sel(ss: &q::SelectionSet, out: &mut Vec<String>) {
+        for x in &ss.items {
+            match x {
+                q::Selection::Field(f) => { out.push(enc::r_pos(&f.position)); dirs(&f.directives, out); sel(&f.selection_set, out); }
+                q::Selection::FragmentSpread(f) => { out.push(enc::r_pos(&f.position)); dirs(&f.directives, out); }
+                q::Selection::InlineFragment(f) => { out.push(enc::r_pos(&f.position)); dirs(&f.directives, out); sel(&f.selection_set, out); }
+            }
+        }
+    }
+    let mut out = vec![];
+    for d in &doc.definitions {
+        match d {
+            q::Definition::Fragment(f) => { out.push(enc::r_pos(&f.position)); dirs(&f.directives, &mut out); sel(&f.selection_set, &mut out); }
+            q::Definition::Operation(o) => {
+                use graphql_tools::ast::OperationDefinitionExtension;
+                match o { q::OperationDefinition::Query(x) => out.push(enc::r_pos(&x.position)), q::OperationDefinition::Mutation(x) => out.push(enc::r_pos(&x.position)),
+                          q::OperationDefinition::Subscription(x) => out.push(enc::r_pos(&x.position)), _ => {} }
+                for v in o.variable_definitions() { out.push(enc::r_pos(&v.position)); }
+                dirs(o.directives(), &mut out); sel(o.selection_set(), &mut out);
+            }
+        }
+    }
+    out.sort(); out.dedup();
+    out
+}
+
+/// random plans: sub-sequences, permutations, repetitions of the 24 rules
+pub fn random_plans(rng: &mut crate::rng::Rng, n: usize) -> Vec<Vec<&'static str>> {
+    (0..n).map(|_| {
+        let len = rng.range(1, 8);
+        let mut p: Vec<&'static str> = (0..len).map(|_| *rng.pick(&RULES)).collect();
+        if rng.pct(30) { let mut all: Vec<&'static str> = RULES.to_vec(); rng.shuffle(&mut all); p = all; }
+        p
+    }).collect()
+}
+
 pub fn validate_case(si: &gen::SchemaInfo, text: &str, tmpdir: &str, out: &mut Out) {
+    validate_case_plans(si, text, tmpdir, &[], out)
+}
+
+pub fn validate_case_plans(si: &gen::SchemaInfo, text: &str, tmpdir: &str, plans: &[Vec<&'static str>], out: &mut Out) {
     let doc = match gen::parse_doc(text) { Some(d) => d, None => return };
     let cyclic = is_cyclic(&doc);
     let obs = if cyclic { observe_isolated(si, text, tmpdir) } else { observe(&si.doc, &doc, false) };
-    out.push(json!({"op": "validate", "src": text, "doc": enc::document(&doc), "cyclic": cyclic, "impl": obs}));
+    let mut plan_runs = vec![];
+    if !cyclic {
+        for p in plans {
+            let r = std::panic::catch_unwind(std::panic::AssertUnwindSafe(|| { let plan = plan_of(p); validate(&si.doc, &doc, &plan) }));
+            if let Ok(errs) = r { plan_runs.push(json!({"plan": p, "errs": errs.iter().map(|e| json!([e.error_code, render_err(e)])).collect::<Vec<_>>()})); }
+        }
+    }
+    out.push(json!({"op": "validate", "src": text, "doc": enc::document(&doc), "cyclic": cyclic, "impl": obs,
+        "positions": positions(&doc), "planRuns": plan_runs}));
 }
